@@ -13,13 +13,20 @@ SELECTORS = ("Average", "Minimum", "Maximum", "Sum")
 KEYWORD_SUFFIX = {"yield_": "yield", "and_": "and", "or_": "or", "not_": "not"}
 
 
+class Members(list):
+    """(member, value, line) triples of one enumeration; .auto lists the members whose number is not written down but counted by enum.auto()"""
+    auto = ()
+
+
 def enum_tables(repo: Repo):
     """enum class name -> list of (member, value) from types_generated."""
     m = repo.mod("types_generated")
+    autos = {n for n, (mod_, attr) in m.imports.items() if mod_ == "enum" and attr == "auto"} | {"auto"}
     out = {}
     for c in m.classes.values():
         if any(isinstance(b, ast.Name) and b.id in ("_IntEnum", "IntEnum") for b in c.bases):
-            mem = []
+            mem = Members()
+            mem.auto = []
             for st in c.body:
                 if isinstance(st, ast.Assign) and len(st.targets) == 1 and isinstance(st.targets[0], ast.Name):
                     v = st.value
@@ -27,6 +34,10 @@ def enum_tables(repo: Repo):
                         val = -v.operand.value
                     elif isinstance(v, ast.Constant):
                         val = v.value
+                    elif isinstance(v, ast.Call) and not v.args and (isinstance(v.func, ast.Name) and v.func.id in autos or norm(v.func) in ("enum.auto", "_enum.auto")):
+                        # what Enum does: one more than the last value, 1 for the first member
+                        val = (mem[-1][1] + 1) if mem and isinstance(mem[-1][1], int) else 1
+                        mem.auto.append(st.targets[0].id)
                     else:
                         raise AnalysisError(f"enum {c.name}.{st.targets[0].id}: value is not a literal")
                     mem.append((st.targets[0].id, val, st.lineno))
@@ -115,8 +126,11 @@ def run(repo: Repo, chk: Check):
     chk.rule("R16.e", "every property of the generic device classes reads the logic type of its own name, which is a LogicType member", floor=600)
 
     chk.rule("R16.f", "the printing function returns the name (verbose) or the number (compact) of the one member it was given (shared with R08.d)", floor=2)
-    from .c08 import rule_format_enum
+    from .c08 import rule_format_enum, r08c_unwrap
     chk.guarded(rule_format_enum, repo, chk, "R16.f")
+    chk.rule("R16.g", "the hash operand of a batch access is computed from the table's prefab name as it stands: compute_hash removes a HASH(\"...\") / quote "
+                      "wrapper exactly and nothing else (shared with R08.c)", floor=1)
+    chk.guarded(r08c_unwrap, repo, chk, "R16.g")
     enums = enum_tables(repo)
     # ---------------------------------------------------------------- R16.c
     gpath = repo.mod("types_generated").path
@@ -134,6 +148,10 @@ def run(repo: Repo, chk: Check):
         dups = {v: ns for v, ns in byval.items() if len(ns) > 1}
         chk.judge("R16.c", f"types_generated:{en}", not dups and not dupn and len(mem) > 0,
                   f"enum {en}: members sharing a number {dups} / duplicate names {dupn}", {"members": len(mem)}, f"{gpath} class {en}")
+        if getattr(mem, "auto", None):
+            chk.bad("R16.c", f"types_generated:{en}:numbers are the game's, written down",
+                    f"enum {en}: the numbers of {mem.auto[:4]}{'...' if len(mem.auto) > 4 else ''} are counted by enum.auto() ({', '.join(f'{n_}={v_}' for n_, v_, _ in mem[:3])}): auto() starts at 1 "
+                    f"and counts on from the previous member, the game's tables do neither; compact output carries these numbers", {"auto": mem.auto}, f"{gpath} class {en}")
     chk.extra["enum_members"] = total_members
 
     # ---------------------------------------------------------------- structures
